@@ -262,6 +262,28 @@ static Outcome runCase(const KV& c)
             bestJ  = std::min(bestJ, m);
             scaleJ = std::max(std::max(fabsl(xr), fabsl(yr)), std::max(fabsl(xt), fabsl(yt))) + 1.0L / Rmax;
         }
+        if (culham && !(bestJ < 1e299L) && r < 0.05 * Rmax) {
+            // Culham near the origin (the wide stencil does not fit): the tables are piecewise linear in r with a mesh of
+            // Rmax/1000, so a narrow central difference (step r/8) returns the local slope; the tabulated derivative terms
+            // agree with it to a few 1e-4 of the scale (measured on the unchanged tree), a wrong table entry is off by 1e-2
+            auto fx = [&](LD rr, LD tt) { double a = (double)rr, b = (double)tt; return F.geo->Fx(a, b, std::sin(b), std::cos(b)); };
+            auto fy = [&](LD rr, LD tt) { double a = (double)rr, b = (double)tt; return F.geo->Fy(a, b, std::sin(b), std::cos(b)); };
+            const LD hr = (LD)r / 8, ht = 1.0L / 1024;
+            LD dxr = diff8([&](LD x) { return fx(x, t); }, r, hr), dyr = diff8([&](LD x) { return fy(x, t); }, r, hr);
+            LD dxt = diff8([&](LD x) { return fx(r, x); }, t, ht), dyt = diff8([&](LD x) { return fy(r, x); }, t, ht);
+            const LD m  = std::max(std::max(fabsl(dxr - xr), fabsl(dyr - yr)), std::max(fabsl(dxt - xt), fabsl(dyt - yt)));
+            const LD sc = std::max(std::max(fabsl(xr), fabsl(yr)), std::max(fabsl(xt), fabsl(yt))) + 1.0L / Rmax;
+            const LD tolIn = 3e-3L * sc;
+            o.mx("culham_inner_jacobian_err_over_tol", (double)(m / tolIn));
+            o.cls("culham_inner_region_judged");
+            if (m > tolIn) {
+                char buf[300];
+                snprintf(buf, sizeof buf, "Culham: Jacobian functions differ from the local slopes of (Fx,Fy) near the origin, r=%.6g theta=%.6g: max difference %.3Le (tol %.3Le)",
+                         r, t, m, tolIn);
+                o.fail("jacobian", buf);
+                return o;
+            }
+        }
         if (bestJ < 1e299L) {
             const LD tolJ = (culham ? 2e-4L : 1e-7L) * scaleJ;
             o.mx(culham ? "culham_jacobian_err_over_tol" : "jacobian_err_over_tol", (double)(bestJ / tolJ));
